@@ -23,7 +23,7 @@ ATTRIB = [
     (MODEL, "_end_model_construction", ("C14",)), (MODEL, "get_model_parser", ("C16",)),
     (PROV, "PlainName", ("C07",)), (PROV, "FQN", ("C10",)), (PROV, "ImportURI", ("C17",)), (PROV, "FQNImportURI", ("C17", "C10")), (PROV, "PlainNameImportURI", ("C17", "C07")),
     (PROV, "GlobalRepo", ("C17",)), (PROV, "RelativeName", ("C09",)), (PROV, "ExtRelativeName", ("C09",)),
-    (RREL, "", ("C11",)), (TOOLS, "", ("C09", "C11")), (SCOP, "", ("C17",)), (SCOP, "ModelRepository.remove_model", ("C18",)), (SCOP, "remove_models_from_repositories", ("C18",)),
+    (RREL, "", ("C11",)), (RREL, "create_rrel_scope_provider", ("C11", "C16")), (TOOLS, "", ("C09", "C11")), (SCOP, "", ("C17",)), (SCOP, "ModelRepository.remove_model", ("C18",)), (SCOP, "remove_models_from_repositories", ("C18",)),
     (MM, "TextXMetaModel.internal_model_from_file", ("C17",)), (MM, "TextXMetaModel._init_obj_attrs", ("C01",)), (MM, "TextXMetaModel.process", ("C33", "C13")),
     ("textx/model_params.py", "", ("C27",)),
 ]
